@@ -287,7 +287,7 @@ def _run_machine(leg, stats, tier, seed, shard, nshards, n):
             stats.failure = {"case": {"steps": []}, "problem": "unexpected %s escaped from pyModeS: %s" % (type(e).__name__, e)}
         else:
             stats.harness_error = traceback.format_exc()
-    for h, st_, nac in M.COLLECT:
+    for h, st_, nac, steps_kept in M.COLLECT:
         stats.cases += 1
         stats.evaluations += max(1, st_.get("flush", 0))
         nt = bool(st_.get("ref") and (st_.get("evict") or st_.get("merge") or st_.get("cross"))) or st_.get("ref", 0) > 3
@@ -297,8 +297,8 @@ def _run_machine(leg, stats, tier, seed, shard, nshards, n):
         stats.classes["aircraft:%d" % nac] += 1
         if nt:
             stats.nt_hashes.add(h)
-            if len(stats.samples) < 2:
-                stats.samples.append({"leg": leg.name, "case": {"stats": st_, "aircraft": nac}, "classes": []})
+            if len(stats.samples) < 2 and steps_kept is not None:
+                stats.samples.append({"leg": leg.name, "case": {"steps (first 40)": steps_kept, "stats": st_, "aircraft": nac}, "classes": []})
 
 
 def generic_shrink(leg, case, known):
